@@ -233,6 +233,63 @@ def run(chk):
     run_acccopy(chk, prog, "H5-state", hooks, lambda src: "/test/" not in src)
     run_statecopy(chk, prog, "H7-state", hooks, lambda src: "/test/" not in src)
     chk.floor("H7-state", 5)
+    # H8-reopen (who-may-call): a copy hook duplicates the handles its original holds; it does not open anything by name.
+    # A path names whatever is there *now*: after a rename or unlink the "copy" reads another file or cannot be made.
+    OPEN_BY_NAME = {"open", "open64", "openat", "openat64", "fopen", "fopen64", "sqfs_native_file_open", "sqfs_file_open",
+                    "sqfs_istream_open_file", "sqfs_ostream_open_file", "opendir", "CreateFileW", "CreateFileA"}
+    for hk in hooks:
+        if hk.decl:
+            continue
+        cl, _e, _u = prog.reachable_from([hk], stop=lambda g, u=hk.unit: g.unit is not u)
+        bad = None
+        for g in cl:
+            for c in g.build().calls():
+                if norm_callee(c.callee) in OPEN_BY_NAME:
+                    bad = c
+        chk.analysed(hk)
+        if bad is None:
+            chk.ok("H8-reopen", hk.name, hk, "the copy hook opens nothing by name")
+        else:
+            chk.violation("H8-reopen", hk.name, bad, "the copy hook obtains its resource with %s(): a name, not the original's handle -- the "
+                          "copy is of whatever the name denotes when the copy is made" % norm_callee(bad.callee))
+    chk.floor("H8-reopen", 10)
+    # H9-initagree (sibling agreement): where a copy hook sets up library state with the same library call as the
+    # constructor of its unit (deflateInit2, ...), the two calls agree argument by argument on what is a constant and on
+    # the constant: a parameter that the constructor derives from the configuration and the copy hook hard-codes is lost
+    # in every copy.
+    from ..ir import ExternFn
+    n9 = 0
+    for hk in hooks:
+        if hk.decl:
+            continue
+        for c in hk.build().calls():
+            if not c.callee or prog.fn(c.callee, hk.unit) is not None:
+                continue
+            nm = norm_callee(c.callee)
+            if not nm or not any(t in nm.lower() for t in ("init", "create", "new")) or nm in ("calloc", "malloc"):
+                continue
+            twins = [d for g in hk.unit.functions.values() if not g.decl and g is not hk
+                     for d in g.build().calls() if norm_callee(d.callee) == nm]
+            for d in twins:
+                n9 += 1
+                chk.analysed(hk)
+                inst = "%s~%s:%s" % (hk.name, d.fn.name, nm)
+                diff = None
+                for k, (a, b) in enumerate(zip(c.ops, d.ops)):
+                    ca = a.is_const and getattr(a, "is_int", False)
+                    cb = b.is_const and getattr(b, "is_int", False)
+                    if ca != cb or (ca and cb and a.sval != b.sval):
+                        diff = (k, a, b)
+                        break
+                if diff is None:
+                    chk.ok("H9-initagree", inst, c, "same shape of arguments as the constructor's call")
+                else:
+                    chk.violation("H9-initagree", inst, c, "argument %d of %s is %s in the copy hook and %s in %s: what the original was "
+                                  "set up with is not what its copies are set up with" % (
+                                      diff[0], nm, "the constant %d" % diff[1].sval if diff[1].is_const else "computed",
+                                      "the constant %d" % diff[2].sval if diff[2].is_const else "computed", d.fn.name))
+    if n9 == 0:
+        chk.note("H9-initagree: no copy hook shares a library set-up call with a constructor of its unit")
     # a copy that takes the tag of a cache over takes the payload over too (K9-copytag of C10)
     from .c10 import copy_tag_rule
     copy_tag_rule(chk, prog)
